@@ -458,12 +458,21 @@ def run_cli(job: Job, hashseed: str = "0", timeout: int = 600) -> Observation:
             if job.output:
                 argv += ["--output", str(out)]
             target = _OutTarget(job.out_kind, out, root) if job.out_kind else None
-            cmd = [
-                core.PY,
-                "-c",
-                "import sys; sys.argv[0]='codemodder'; from codemodder.codemodder import main; main()",
-            ] + argv
-            p = subprocess.run(cmd, env=env, cwd=root, capture_output=True, timeout=timeout)
+            code = "import sys; sys.argv[0]='codemodder'; from codemodder.codemodder import main; main()"
+            run_env = env
+            if job.pre_hook:
+                # the same harness-side seam (fault wrapper ...) installed in the fresh interpreter, before main(): the real console
+                # entry point with its own logging set-up, plus the injected fault
+                code = ("import sys, os, json, types; sys.path.insert(1, os.environ['CMVERIF_HARNESS']); from cmverif.drive import _resolve_hook; "
+                        "_o = types.SimpleNamespace(extra={}); _resolve_hook(os.environ['CMVERIF_HOOK'])(json.loads(os.environ['CMVERIF_HOOK_ARG']), _o); "
+                        "import atexit; atexit.register(lambda: sys.stderr.write('\\nCMVERIF-FAULTS-FIRED ' + json.dumps(_o.extra.get('faults_fired', [])) + '\\n')); " + code)
+                run_env = dict(env, CMVERIF_HARNESS=str(core.VERIF), CMVERIF_HOOK=job.pre_hook, CMVERIF_HOOK_ARG=json.dumps(job.pre_hook_arg))
+            cmd = [core.PY, "-c", code] + argv
+            p = subprocess.run(cmd, env=run_env, cwd=root, capture_output=True, timeout=timeout)
+            if job.pre_hook:
+                for line in p.stderr.decode("utf-8", "replace").splitlines():
+                    if line.startswith("CMVERIF-FAULTS-FIRED "):
+                        obs.extra["faults_fired"] = [tuple(x) for x in json.loads(line.split(" ", 1)[1])]
             obs.exits.append(p.returncode)
             so = p.stdout.decode("utf-8", "replace")
             obs.stdout.append(so)
